@@ -46,7 +46,8 @@
                           -> add_task (IoRcAt)  IoRcRel (Rel Rq)
      send_continue(do_close)  (do_close only matters for socket errors, which are not modelled)
                           ScAcq (A Ob) ScApp (outbufs[-1].append) ScTotR/ScTotW
-                          (total += 25, sent_continue := True) ScFl (_flush_some)
+                          (total += 25, sent_continue := True) ScFl (_flush_some via _flush_exception,
+                          48f7fa0; ScExcW: W will_close when it raises)
                           ScRel (Rel Ob)
      handle_write_event   IoHwConn (R connected) IoHwReq (R requests: [] ->
                           IoHwTry = _flush_some_if_lockable; before 8bcf05e: IoHwFlU = _flush_some WITHOUT the lock) IoHwTot (R total
@@ -159,7 +160,7 @@ Inductive flpc := FlLoad | FlGet | FlSend | FlSkip | FlTotR | FlTotW | FlLen | F
 Record flst := { fpc : flpc; f_olen : nat; f_chunk : list tok; f_n : nat; f_tmp : Z; f_sent : bool }.
 Definition fl0 : flst := {| fpc := FlLoad; f_olen := 0; f_chunk := []; f_n := 0; f_tmp := 0%Z; f_sent := false |}.
 
-Inductive scpc := ScAcq | ScApp | ScTotR | ScTotW (tmp : Z) | ScFl (f : flst) | ScRel | ScRelX.
+Inductive scpc := ScAcq | ScApp | ScTotR | ScTotW (tmp : Z) | ScFl (f : flst) | ScExcW | ScRel.
 Inductive atpc := AtAcq | AtNotify | AtRel.
 Inductive hcpc := HcAcq | HcBufs | HcTot | HcConn | HcNotify | HcRel | HcConn2.
 
@@ -167,7 +168,7 @@ Inductive iopc :=
 | IoRd1 | IoRd2 | IoRd3 | IoRd4 | IoWr1 | IoWr2 | IoWr3 | IoSel
 | IoHrConn | IoRecv | IoHrWConn
 | IoRcAcq | IoRcWc | IoRcCwf | IoRcItem | IoRcChk | IoRcSc (sc : scpc) | IoRcApp | IoRcApp2 | IoRcLen
-| IoRcAt (a : atpc) | IoRcRel | IoRcRelX
+| IoRcAt (a : atpc) | IoRcRel
 | IoHwConn | IoHwReq | IoHwFlU (f : flst) | IoHwTot | IoHwTotH | IoHwTry | IoHwFlL (f : flst)
 | IoHwNTot | IoHwNotify | IoHwRel | IoHwRelX | IoHwExcW
 | IoHwCwf | IoHwTot2 | IoHwWCwf | IoHwWWc | IoHwWc
@@ -181,7 +182,7 @@ Inductive wkpc :=
 | WWsChk | WWsFl (f : flst) | WWsExcW | WWsChk2 | WWsTrig | WWsRel
 | WCbAcq | WCbCwf | WCbReq | WCbClr | WCbRel
 | WKbLen | WKbHw | WKbAcq | WKbPop | WKbConn | WKbReq | WKbAt (a : atpc) | WKbConn2
-| WKbSc (sc : scpc) | WKbRel | WKbRelX
+| WKbSc (sc : scpc) | WKbRel
 | WTlConn | WTlTrig.
 
 Record iost := {
@@ -385,7 +386,7 @@ Definition fl_step (s : shared) (f : flst) (e : env) : option (shared * flres * 
   end.
 
 (* send_continue(); the caller has tested the condition and cleared expect_continue *)
-Inductive scres := SCont (c : scpc) | SDone | SExc.
+Inductive scres := SCont (c : scpc) | SDone.
 
 Definition pst_id (s : shared) : nat := match pst s with Some (id, _, _) => id | None => 0 end.
 
@@ -404,11 +405,11 @@ Definition sc_step (t : tid) (s : shared) (c : scpc) (e : env) : option (shared 
       match fl_step s f e with
       | Some (s', FCont f', l) => Some (s', SCont (ScFl f'), l)
       | Some (s', FDone _, l) => Some (s', SCont ScRel, l)
-      | Some (s', FExc, l) => Some (s', SCont ScRelX, l)
+      | Some (s', FExc, l) => Some (s', SCont ScExcW, l)   (* caught by _flush_exception (48f7fa0) *)
       | None => None
       end
+  | ScExcW => Some (set_will_close s true, SCont ScRel, [LW AWillClose])
   | ScRel => Some (set_olock s None, SDone, [LRel Ob])
-  | ScRelX => Some (set_olock s None, SExc, [LRel Ob])
   end.
 
 (* entering send_continue: self.request.expect_continue = False *)
@@ -499,7 +500,6 @@ Definition io_step (s : shared) (i : iost) (e : env) : option (shared * iost * l
       match sc_step TIo s c e with
       | Some (s', SCont c', l) => Some (s', goto (IoRcSc c'), l)
       | Some (s', SDone, l) => Some (s', goto (if i_comp i then IoRcApp else IoRcItem), l)
-      | Some (s', SExc, l) => Some (s', goto IoRcRelX, l)
       | None => None
       end
   | IoRcApp => Some (set_sent_continue s false, goto IoRcApp2, [LR ARequests])
@@ -516,7 +516,6 @@ Definition io_step (s : shared) (i : iost) (e : env) : option (shared * iost * l
       | None => None
       end
   | IoRcRel => Some (set_rlock s None, goto (io_after_read i), [LRel Rq])
-  | IoRcRelX => Some (set_rlock s None, goto (IoHc HcAcq false), [LRel Rq])   (* handle_error -> handle_close *)
   (* handle_write_event / handle_write *)
   | IoHwConn => Some (s, goto IoHwReq, [LR AConnected])
   | IoHwReq => Some (s, goto (match requests s with
@@ -681,11 +680,9 @@ Definition wk_step (me : nat) (s : shared) (w : wkst) (e : env) : option (shared
       match sc_step t s c e with
       | Some (s', SCont c', l) => Some (s', goto (WKbSc c'), l)
       | Some (s', SDone, l) => Some (s', goto WKbRel, l)
-      | Some (s', SExc, l) => Some (s', goto WKbRelX, l)
       | None => None
       end
   | WKbRel => Some (set_rlock s None, goto WTlConn, [LRel Rq])
-  | WKbRelX => Some (set_rlock s None, goto WAcqD, [LRel Rq])   (* the ValueError escapes service() *)
   (* tail *)
   | WTlConn => Some (s, goto (if connected s then WTlTrig else WAcqD), [LR AConnected])
   | WTlTrig => Some (s, goto WAcqD, [LTrig])
@@ -785,7 +782,7 @@ Definition resp_ids (us : list unit_) : list nat :=
 Definition wk_owner (pc : wkpc) : bool :=
   match pc with
   | WAcqD | WWait | WParked => false
-  | WKbAt AtNotify | WKbAt AtRel | WKbRel | WKbRelX | WCbRel | WTlConn | WTlTrig => false
+  | WKbAt AtNotify | WKbAt AtRel | WKbRel | WCbRel | WTlConn | WTlTrig => false
   | _ => true
   end.
 Fixpoint owners (n : nat) (f : nat -> wkst) : nat :=
